@@ -423,6 +423,21 @@ func catalogue() []*entry {
 				*pt.MetaData = metaData(2)
 				return pt
 			}),
+			V("derived:Plaintext-of-ciphertext", func(w *world, g *gen) any { return rndCt(g, w.pA, 0, 1, 1).Plaintext() }),
+			V("derived:CopyNew", func(w *world, g *gen) any {
+				pt := rlwe.NewPlaintext(w.pA, 2)
+				g.fill(pt)
+				*pt.MetaData = metaData(3)
+				return pt.CopyNew()
+			}),
+			V("derived:resized-down", func(w *world, g *gen) any {
+				pt := rlwe.NewPlaintext(w.pA, 2)
+				g.fill(pt)
+				*pt.MetaData = metaData(1)
+				pt.Resize(0, 0)
+				pt.Value = pt.Element.Value[0]
+				return pt
+			}),
 		}},
 		{name: "rlwe.Ciphertext", zero: Z[rlwe.Ciphertext](), vals: []value{
 			V("A-deg1-level2-md1", func(w *world, g *gen) any { return rndCt(g, w.pA, 1, 2, 1) }),
@@ -431,6 +446,16 @@ func catalogue() []*entry {
 			V("A-deg1-level0-nil-metadata", func(w *world, g *gen) any { return rndCt(g, w.pA, 1, 0, -1) }),
 			V("B-deg1-level1-md3-N32", func(w *world, g *gen) any { return rndCt(g, w.pB, 1, 1, 3) }),
 			V("D-deg1-level0-md1-N1024", func(w *world, g *gen) any { return rndCt(g, w.pD, 1, 0, 1) }),
+			// derived from other ciphertexts by the library's own operations
+			V("derived:resized-down", func(w *world, g *gen) any { ct := rndCt(g, w.pA, 2, 2, 1); ct.Resize(1, 1); return ct }),
+			V("derived:resized-up", func(w *world, g *gen) any { ct := rndCt(g, w.pA, 0, 0, 2); ct.Resize(2, 2); return ct }),
+			V("derived:CopyNew", func(w *world, g *gen) any { return rndCt(g, w.pA, 1, 1, 3).CopyNew() }),
+			V("derived:El-of-plaintext", func(w *world, g *gen) any {
+				pt := rlwe.NewPlaintext(w.pA, 1)
+				g.fill(pt)
+				*pt.MetaData = metaData(2)
+				return &rlwe.Ciphertext{Element: *pt.El()}
+			}),
 		}},
 		{name: "rlwe.Element[ringqp.Poly]", zero: Z[rlwe.Element[ringqp.Poly]](), vals: []value{
 			V("A-deg1-2-1", func(w *world, g *gen) any {
@@ -495,6 +520,13 @@ func catalogue() []*entry {
 			V("A-level0-0", func(w *world, g *gen) any {
 				return rlwe.NewKeyGenerator(w.pA).GenRelinearizationKeyNew(w.skA, evkParams(0, 0, 0, false))
 			}),
+			V("derived:compressed-then-expanded", func(w *world, g *gen) any {
+				k := rlwe.NewKeyGenerator(w.pA).GenRelinearizationKeyNew(w.skA, evkParams(1, 0, 0, true))
+				if err := k.Expand(w.pA, nil); err != nil {
+					panic(err)
+				}
+				return k
+			}),
 		}},
 		{name: "rlwe.GaloisKey", zero: Z[rlwe.GaloisKey](), refill: true, vals: []value{
 			V("A-gal5", func(w *world, g *gen) any { return rlwe.NewKeyGenerator(w.pA).GenGaloisKeyNew(5, w.skA) }),
@@ -506,6 +538,13 @@ func catalogue() []*entry {
 			}),
 			V("A-gal5-level1-0", func(w *world, g *gen) any {
 				return rlwe.NewKeyGenerator(w.pA).GenGaloisKeyNew(5, w.skA, evkParams(1, 0, 0, false))
+			}),
+			V("derived:compressed-then-expanded", func(w *world, g *gen) any {
+				k := rlwe.NewKeyGenerator(w.pA).GenGaloisKeyNew(5, w.skA, evkParams(1, 0, 0, true))
+				if err := k.Expand(w.pA, nil); err != nil {
+					panic(err)
+				}
+				return k
 			}),
 		}},
 		{name: "structs.Map[uint64,rlwe.GaloisKey]", zero: Z[structs.Map[uint64, rlwe.GaloisKey]](), refill: true, vals: []value{
@@ -609,6 +648,14 @@ func catalogue() []*entry {
 				g.fill(&s)
 				return &s
 			}),
+			V("derived:aggregated", func(w *world, g *gen) any {
+				p := multiparty.NewPublicKeyGenProtocol(w.pA)
+				a, b, out := p.AllocateShare(), p.AllocateShare(), p.AllocateShare()
+				g.fill(&a)
+				g.fill(&b)
+				p.AggregateShares(a, b, &out)
+				return &out
+			}),
 		}},
 		{name: "multiparty.RelinearizationKeyGenShare", zero: Z[multiparty.RelinearizationKeyGenShare](), vals: []value{
 			V("A", func(w *world, g *gen) any {
@@ -621,6 +668,16 @@ func catalogue() []*entry {
 				g.fill(&s)
 				return &s
 			}),
+			V("derived:aggregated", func(w *world, g *gen) any {
+				p := multiparty.NewRelinearizationKeyGenProtocol(w.pA)
+				_, a, _ := p.AllocateShare(evkParams(1, 0, 0, false)) // three round-one shares
+				_, b, _ := p.AllocateShare(evkParams(1, 0, 0, false))
+				_, out, _ := p.AllocateShare(evkParams(1, 0, 0, false))
+				g.fill(&a)
+				g.fill(&b)
+				p.AggregateShares(a, b, &out)
+				return &out
+			}),
 		}},
 		{name: "multiparty.EvaluationKeyGenShare", zero: Z[multiparty.EvaluationKeyGenShare](), vals: []value{
 			V("A", func(w *world, g *gen) any {
@@ -632,6 +689,17 @@ func catalogue() []*entry {
 				s := multiparty.NewEvaluationKeyGenProtocol(w.pA).AllocateShare(evkParams(0, 0, 0, false))
 				g.fill(&s)
 				return &s
+			}),
+			V("derived:aggregated", func(w *world, g *gen) any {
+				p := multiparty.NewEvaluationKeyGenProtocol(w.pA)
+				e := evkParams(1, 0, 0, false)
+				a, b, out := p.AllocateShare(e), p.AllocateShare(e), p.AllocateShare(e)
+				g.fill(&a)
+				g.fill(&b)
+				if err := p.AggregateShares(a, b, &out); err != nil {
+					panic(err)
+				}
+				return &out
 			}),
 		}},
 		{name: "multiparty.GaloisKeyGenShare", zero: Z[multiparty.GaloisKeyGenShare](), vals: []value{
@@ -647,6 +715,18 @@ func catalogue() []*entry {
 				s.GaloisElement = 25
 				return &s
 			}),
+			V("derived:aggregated", func(w *world, g *gen) any {
+				p := multiparty.NewGaloisKeyGenProtocol(w.pA)
+				e := evkParams(1, 0, 0, false)
+				a, b, out := p.AllocateShare(e), p.AllocateShare(e), p.AllocateShare(e)
+				g.fill(&a)
+				g.fill(&b)
+				a.GaloisElement, b.GaloisElement = 5, 5
+				if err := p.AggregateShares(a, b, &out); err != nil {
+					panic(err)
+				}
+				return &out
+			}),
 		}},
 		{name: "multiparty.KeySwitchShare", zero: Z[multiparty.KeySwitchShare](), vals: []value{
 			V("A-level2", func(w *world, g *gen) any {
@@ -659,6 +739,16 @@ func catalogue() []*entry {
 				g.fill(&s)
 				return &s
 			}),
+			V("derived:aggregated", func(w *world, g *gen) any {
+				p := must(multiparty.NewKeySwitchProtocol(w.pA, ring.DiscreteGaussian{Sigma: 3.2, Bound: 19}))
+				a, b, out := p.AllocateShare(1), p.AllocateShare(1), p.AllocateShare(1)
+				g.fill(&a)
+				g.fill(&b)
+				if err := p.AggregateShares(a, b, &out); err != nil {
+					panic(err)
+				}
+				return &out
+			}),
 		}},
 		{name: "multiparty.PublicKeySwitchShare", zero: Z[multiparty.PublicKeySwitchShare](), vals: []value{
 			V("A-level2", func(w *world, g *gen) any {
@@ -670,6 +760,16 @@ func catalogue() []*entry {
 				s := must(multiparty.NewPublicKeySwitchProtocol(w.pA, ring.DiscreteGaussian{Sigma: 3.2, Bound: 19})).AllocateShare(0)
 				g.fill(&s)
 				return &s
+			}),
+			V("derived:aggregated", func(w *world, g *gen) any {
+				p := must(multiparty.NewPublicKeySwitchProtocol(w.pA, ring.DiscreteGaussian{Sigma: 3.2, Bound: 19}))
+				a, b, out := p.AllocateShare(1), p.AllocateShare(1), p.AllocateShare(1)
+				g.fill(&a)
+				g.fill(&b)
+				if err := p.AggregateShares(a, b, &out); err != nil {
+					panic(err)
+				}
+				return &out
 			}),
 		}},
 		{name: "multiparty.RefreshShare", zero: Z[multiparty.RefreshShare](), vals: []value{
@@ -705,6 +805,16 @@ func catalogue() []*entry {
 				s := multiparty.NewThresholdizer(w.pC).AllocateThresholdSecretShare()
 				g.fill(&s)
 				return &s
+			}),
+			V("derived:aggregated", func(w *world, g *gen) any {
+				p := multiparty.NewThresholdizer(w.pA)
+				a, b, out := p.AllocateThresholdSecretShare(), p.AllocateThresholdSecretShare(), p.AllocateThresholdSecretShare()
+				g.fill(&a)
+				g.fill(&b)
+				if err := p.AggregateShares(a, b, &out); err != nil {
+					panic(err)
+				}
+				return &out
 			}),
 		}},
 	}
